@@ -18,6 +18,8 @@ from . import docs
 
 WEIRD = ['"', '""', '"a', 'a"', '"a b"', 'a,b', ',', ' x', 'x ', 'a  b', 'ñ', 'é"è', '日本語', 'a@b', 'x·y', "'", "it's", '"a\'b', 'a;b', '\\', 'a\\"b',
          '"" ""', 'x,"y",z', '«q»', ' ', 'a b']
+# characters str.splitlines() treats as line ends but Humdrum (and the file reader) do not
+WEIRD += ['a\x85b', 'c\u2028d', 'e\x0cf', '\x0b', 'g\x1ch', 'i\u2029', '\x1d\x1e']
 
 CALLS = [{'op': 'spine_ids', 'args': {}}, {'op': 'spine_types', 'args': {'alltypes': True, 'types': []}}]
 
